@@ -207,6 +207,7 @@ CANARIES = {
         ("unregistered-extension-key-unvalidated", "stix2/properties.py", "text", ["                    _validate_id(\n                        key, self.spec_version, 'extension-definition--',\n                    )\n", "                    pass\n"], "C19.validation-before-write"),
         ("extension-20-reference-rule", "stix2/registration.py", "text", ['_validate_props(combined_props, version, is_observable20=version == "2.0")', "_validate_props(combined_props, version)"], "C19.validation-before-write"),
         ("lookup-without-category", "stix2/parsing.py", "text", ['obj_class = registry.class_for_type(obj_type, version, "observables")', 'obj_class = registry.class_for_type(obj_type, version)'], "C19.version-scope"),
+        ("reference-names-by-the-text-after-the-last-underscore", "stix2/registration.py", "text", ["        if prop_name.endswith(\"_ref\") and not isinstance(prop_obj, ref_prop_type):", "        tail = prop_name.rsplit(\"_\", 1)[-1]\n        if tail == \"ref\" and not isinstance(prop_obj, ref_prop_type):"], "C19.validation-before-write"),
     ],
     "C20": [
         ("boundary-overlap", "stix2/confidence/scales.py", "int+1", ["value_to_wep", "39 -> 40"], "C20.specification"),
